@@ -330,3 +330,39 @@ Section WithConstraints.
     end.
 End WithConstraints.
 
+
+(* ---- specification vocabulary (used by the statements in Props/C18.v) ---- *)
+
+(* the valid entry a decoded element stands for, if any: defaults applied, validator passed *)
+Definition keep (c : cv) : list entry :=
+  match with_defaults c with
+  | None => []
+  | Some e => match validate e with Some e' => [e'] | None => [] end
+  end.
+
+Definition valid_entries (cvs : list cv) : list entry := flat_map keep cvs.
+
+(* a is at least as new as b (both parse) *)
+Definition ege (a b : entry) : Prop :=
+  exists va vb, parse_version (eversion a) = Some va /\ parse_version (eversion b) = Some vb /\
+                vcompare va vb <> Lt.
+
+Definition tge (a b : string) : Prop :=
+  exists va vb, parse_version a = Some va /\ parse_version b = Some vb /\ vcompare va vb <> Lt.
+
+(* [r] is an element of [l] accepted by [p] that is at least as new as every accepted element *)
+Definition best_entry (p : version -> bool) (l : list entry) (r : entry) : Prop :=
+  In r l /\
+  (exists v, parse_version (eversion r) = Some v /\ p v = true) /\
+  forall e v, In e l -> parse_version (eversion e) = Some v -> p v = true -> ege r e.
+
+Definition none_entry (p : version -> bool) (l : list entry) : Prop :=
+  forall e v, In e l -> parse_version (eversion e) = Some v -> p v = false.
+
+Definition best_tag (p : version -> bool) (l : list string) (r : string) : Prop :=
+  In r l /\
+  (exists v, parse_version r = Some v /\ p v = true) /\
+  forall t v, In t l -> parse_version t = Some v -> p v = true -> tge r t.
+
+Definition none_tag (p : version -> bool) (l : list string) : Prop :=
+  forall t v, In t l -> parse_version t = Some v -> p v = false.
